@@ -1,11 +1,13 @@
 CONSTANTS
   FlowSet = {"flows/a.yaml", "flows/b.yaml"}
-  Endpoints = {"configuration", "apply_flows"}
-  Methods = {"PUT", "POST"}
-  MaxNth = 2
-  WithBadB64 = TRUE
-  MxOld = {"none", "m1"}
+  Endpoints = {"configuration"}
+  Methods = {"PUT"}
+  MaxNth = 1
+  WithBadB64 = FALSE
+  MxOld = {"none"}
   GwOld = {"none"}
+  MaxUpdates = 1
+  PayloadCats = {1, 5}
   AnchorFlows = {"flows/a.yaml"}
   Paths <- PathsMC
   Cat <- CatMC
@@ -16,6 +18,8 @@ CONSTANTS
   ApplyNoBackup = FALSE
   NoReloadAfterRestore = FALSE
   MetricsToDefaultPath = TRUE
+  StaleBackup = FALSE
+  RecordHistory = FALSE
 SPECIFICATION SpecMC
 INVARIANTS DiskAtomic BehavAtomic NeverHalf OneConfig
 CHECK_DEADLOCK FALSE
